@@ -97,7 +97,39 @@ def rule_mentions(repo: Repo, T, view: FuncInfo, rule: ClassInfo, language: set[
                 out.append((n.args[1].value, n))
         elif isinstance(n, ast.Call) and isinstance(n.func, ast.Name) and n.func.id in ("methodcaller", "attrgetter") and n.args and isinstance(n.args[0], ast.Constant) and n.args[0].value in language:
             out.append((n.args[0].value, n))
+        elif isinstance(n, ast.Subscript) and isinstance(n.ctx, ast.Load) and isinstance(n.slice, ast.Constant):
+            # a literal dispatch table (module constant / class attribute) indexed by a constant: its entry is what is used
+            entry = _table_entry(repo, view, n)
+            if isinstance(entry, ast.Attribute) and entry.attr in language and not _is_self_like(entry.value):
+                out.append((entry.attr, n))
+            elif isinstance(entry, ast.Constant) and entry.value in language:
+                out.append((entry.value, n))
     return out
+
+
+def _table_entry(repo: Repo, view: FuncInfo, sub: ast.Subscript) -> ast.expr | None:
+    tbl = None
+    v = sub.value
+    src = getattr(v, "_src", None)
+    mod = src[0].module if src is not None else view.module
+    if isinstance(v, ast.Name):
+        tbl = mod.constants.get(v.id)
+    elif isinstance(v, ast.Attribute) and isinstance(v.value, ast.Name):
+        ctx = src[0] if src is not None else view
+        owners = []
+        if v.value.id in ("self", "cls") and ctx.cls is not None:
+            owners = repo.mro(ctx.cls)
+        elif v.value.id in mod.classes:
+            owners = repo.mro(mod.classes[v.value.id])
+        for c in owners:
+            if v.attr in c.class_attrs:
+                tbl = c.class_attrs[v.attr]
+                break
+    if isinstance(tbl, ast.Dict):
+        for k, val in zip(tbl.keys, tbl.values):
+            if isinstance(k, ast.Constant) and k.value == sub.slice.value:
+                return val
+    return None
 
 
 def _opaque_dispatch(view: FuncInfo) -> ast.AST | None:
@@ -335,7 +367,11 @@ def check_are_named(repo: Repo, res: Result) -> FuncInfo | None:
             res.add("C05.R1", key_of(repo, pv, p.node, " [layer lowering]"), False, detail, where_of(pv, p.node), kind="flow")
             ok_all = False
     if ok_all:
-        res.add("C05.R1", construct, True, "every module filter of every named layer reaches the wrapped rule as (identifier, identifier_is_regex)", where(an, an.node), kind="flow")
+        as_filters = any(getattr(p, "mode", "") == "filters" for p in prods)
+        res.add("C05.R1", construct, True, "every module filter of every named layer reaches the wrapped rule as " + ("a module filter of its own kind" if as_filters else "(identifier, identifier_is_regex)"), where(an, an.node), kind="flow")
+        if as_filters:
+            res.observe("C05.R1 LayerRule.are_named hands module filter objects to the wrapped rule: no (identifier, is-regex) pairs to turn into filters on the Rule side")
+            return None
     return receiver
 
 
@@ -389,34 +425,63 @@ def _flatten_loops(view: FuncInfo, loops: list, cnds: list, rounds: int = 4) -> 
 def _judge_lowering(repo: Repo, T, view: FuncInfo, p: Production, layers_param: str | None) -> tuple[str, str]:
     pv = p.view or view
     elt = p.elt
-    if not (isinstance(elt, ast.Tuple) and len(elt.elts) == 2):
-        return "undecided", f"module specification `{norm(elt, 60)}` is not an (identifier, is-regex) pair"
-    ident, flag = (single_value(pv, x) for x in elt.elts)
     loops, cnds = _flatten_loops(pv, p.loops, p.conds)
     if not loops:
         return "undecided", f"`{norm(elt, 60)}` is not produced per module filter of a layer"
     # innermost loop: the module filter
     mt, mit = loops[-1]
     mvars = target_names(mt)
-    if not (isinstance(ident, ast.Attribute) and ident.attr == "identifier" and isinstance(ident.value, ast.Name) and ident.value.id in mvars):
-        return ("violated" if not (names_in(ident) & mvars) else "undecided"), f"the first component `{norm(ident, 50)}` is not the identifier of the layer's module filter"
-    mvar = ident.value.id
+    if isinstance(elt, ast.Tuple) and len(elt.elts) == 2:
+        ident, flag = (single_value(pv, x) for x in elt.elts)
+        if not (isinstance(ident, ast.Attribute) and ident.attr == "identifier" and isinstance(ident.value, ast.Name) and ident.value.id in mvars):
+            return ("violated" if not (names_in(ident) & mvars) else "undecided"), f"the first component `{norm(ident, 50)}` is not the identifier of the layer's module filter"
+        mvar = ident.value.id
 
-    def flagsub(e: ast.expr):
-        if isinstance(e, ast.Attribute) and e.attr == "identifier_is_regex" and isinstance(e.value, ast.Name) and e.value.id == mvar:
-            return atom("IS_REGEX")
-        return None
+        def flagsub(e: ast.expr):
+            if isinstance(e, ast.Attribute) and e.attr == "identifier_is_regex" and isinstance(e.value, ast.Name) and e.value.id == mvar:
+                return atom("IS_REGEX")
+            return None
 
-    ff = to_formula(flag, flagsub)
-    if atoms_of(ff) <= {"IS_REGEX"}:
-        from core.guards import equivalent
+        ff = to_formula(flag, flagsub)
+        if atoms_of(ff) <= {"IS_REGEX"}:
+            from core.guards import equivalent
 
-        if not equivalent(ff, atom("IS_REGEX")):
+            if not equivalent(ff, atom("IS_REGEX")):
+                return "violated", f"the regex flag handed to the rule is `{norm(flag, 40)}`, not the module filter's own `identifier_is_regex`: a layer is not lowered to its module filters with their own regex flag"
+        elif not (names_in(flag) & mvars):
             return "violated", f"the regex flag handed to the rule is `{norm(flag, 40)}`, not the module filter's own `identifier_is_regex`: a layer is not lowered to its module filters with their own regex flag"
-    elif not (names_in(flag) & mvars):
-        return "violated", f"the regex flag handed to the rule is `{norm(flag, 40)}`, not the module filter's own `identifier_is_regex`: a layer is not lowered to its module filters with their own regex flag"
+        else:
+            return "undecided", f"the regex flag `{norm(flag, 50)}` is derived from the module filter in an unrecognised way"
     else:
-        return "undecided", f"the regex flag `{norm(flag, 50)}` is derived from the module filter in an unrecognised way"
+        # module *filter objects* are handed to the rule: the layer's own filters, or filters re-created from them
+        e = single_value(pv, elt)
+        p.mode = "filters"  # type: ignore[attr-defined]
+        if isinstance(e, ast.Name) and e.id in mvars:
+            pass
+        else:
+            mv = sorted(mvars)
+
+            def fsub(x: ast.expr):
+                if isinstance(x, ast.Attribute) and x.attr == "identifier_is_regex" and isinstance(x.value, ast.Name) and x.value.id in mvars:
+                    return atom("FLAG")
+                if isinstance(x, ast.Name) and isinstance(x.ctx, ast.Load):
+                    v = single_value(pv, x)
+                    if v is not x and isinstance(v, ast.Attribute) and v.attr == "identifier_is_regex" and isinstance(v.value, ast.Name) and v.value.id in mvars:
+                        return atom("FLAG")
+                return None
+
+            sites: list = []
+            _maker_sites(repo, T, pv, list(ast.walk(elt)) if e is elt else list(ast.walk(elt)) + list(ast.walk(e)), _filter_classes(repo), {}, [], 0, sites, fsub)
+            kinds = {k for k, _f, _n, _c in sites}
+            if not kinds or "unknown" in kinds:
+                return "undecided", f"`{norm(elt, 60)}` is neither an (identifier, is-regex) pair nor a recognisable module filter of the layer ({', '.join(mv)})"
+            if "regex" not in kinds or "name" not in kinds:
+                return "violated", f"`{norm(elt, 60)}` re-creates the layer's module filters without distinguishing regex filters from name filters"
+            for kind, f, n, _c in sites:
+                if not satisfiable(f):
+                    continue
+                if (kind == "regex" and not implies(f, atom("FLAG"))) or (kind == "name" and not implies(f, f_not(atom("FLAG")))):
+                    return "violated", f"`{norm(n, 50)}` re-creates a {kind} filter for a module filter whose identifier_is_regex says otherwise"
     # the loop over the named layers
     outer = loops[:-1]
     layer_vars: set[str] = set()
